@@ -170,3 +170,135 @@ func init() {
 
 // poolAssign holds the assignment models of pool types with custom unfolders.
 var poolAssign = map[reflect.Type]func(dst reflect.Value, v model.V) error{}
+
+// ---- user unfolders registered through the Unfolders(...) option ----
+
+// UNum has a custom folder (OnInt64) and a *primitive* user unfolder.
+type UNum struct{ N int64 }
+
+func (u UNum) Fold(v structform.ExtVisitor) error { return v.OnInt64(u.N) }
+
+// UnfoldUNum is the primitive unfolder of UNum.
+func UnfoldUNum(to *UNum, v int64) error { to.N = v; return nil }
+
+// UStr has a custom folder (OnString) and a primitive user unfolder.
+type UStr struct{ S string }
+
+func (u UStr) Fold(v structform.ExtVisitor) error { return v.OnString(u.S) }
+
+// UnfoldUStr is the primitive unfolder of UStr.
+func UnfoldUStr(to *UStr, s string) error { to.S = s; return nil }
+
+// UProc is unfolded by a *processing* unfolder: the document is first unfolded
+// into a temporary cell which is then copied into the target as a whole.
+type UProc struct {
+	A int
+	B string
+}
+
+type uprocCell struct {
+	A int
+	B string
+}
+
+// UnfoldUProc is the processing unfolder of UProc.
+func UnfoldUProc(to *UProc) (interface{}, func(*UProc, interface{}) error) {
+	cell := &uprocCell{}
+	return cell, func(to *UProc, c interface{}) error {
+		tmp := c.(*uprocCell)
+		to.A, to.B = tmp.A, tmp.B
+		return nil
+	}
+}
+
+// UnfoldOptions returns the option registering the user unfolders above.
+func UnfoldOptions() gotype.UnfoldOption {
+	return gotype.Unfolders(UnfoldUNum, UnfoldUStr, UnfoldUProc)
+}
+
+var (
+	uNumType  = reflect.TypeOf(UNum{})
+	uStrType  = reflect.TypeOf(UStr{})
+	uProcType = reflect.TypeOf(UProc{})
+)
+
+// UsesUserUnfolder reports whether a target of type t needs UnfoldOptions.
+func UsesUserUnfolder(t reflect.Type) bool {
+	return usesAny(t, 0, map[reflect.Type]bool{}, uNumType, uStrType, uProcType)
+}
+
+func usesAny(t reflect.Type, depth int, seen map[reflect.Type]bool, wanted ...reflect.Type) bool {
+	if depth > 12 || seen[t] {
+		return false
+	}
+	seen[t] = true
+	for _, w := range wanted {
+		if t == w {
+			return true
+		}
+	}
+	switch t.Kind() {
+	case reflect.Ptr, reflect.Slice, reflect.Array, reflect.Map:
+		return usesAny(t.Elem(), depth+1, seen, wanted...)
+	case reflect.Struct:
+		for i := 0; i < t.NumField(); i++ {
+			if usesAny(t.Field(i).Type, depth+1, seen, wanted...) {
+				return true
+			}
+		}
+	}
+	return false
+}
+
+func init() {
+	Pool = append(Pool,
+		PoolType{Name: "UNum", Type: uNumType, NeedsUnfoldOpts: true},
+		PoolType{Name: "UStr", Type: uStrType, NeedsUnfoldOpts: true},
+		PoolType{Name: "UProc", Type: uProcType, NeedsUnfoldOpts: true},
+	)
+	poolFolders[uNumType] = func(rv reflect.Value) model.V { return model.Int(rv.Field(0).Int()) }
+	poolFolders[uStrType] = func(rv reflect.Value) model.V { return model.Str([]byte(rv.Field(0).String())) }
+	poolAssign[uNumType] = func(dst reflect.Value, v model.V) error {
+		switch v.K {
+		case model.VNull:
+			dst.Field(0).SetInt(0)
+		case model.VInt:
+			noteFit(dst.Field(0), v)
+			if v.N.IsInt64() {
+				dst.Field(0).SetInt(v.N.Int64())
+			} else {
+				dst.Field(0).SetInt(int64(v.N.Uint64()))
+			}
+		case model.VFloat:
+			noteFit(dst.Field(0), v)
+			dst.Field(0).SetInt(int64(v.Float()))
+		default:
+			return errors.New("UNum accepts numbers only")
+		}
+		return nil
+	}
+	poolAssign[uStrType] = func(dst reflect.Value, v model.V) error {
+		switch v.K {
+		case model.VNull:
+			dst.Field(0).SetString("")
+		case model.VStr:
+			dst.Field(0).SetString(string(v.S))
+		default:
+			return errors.New("UStr accepts strings only")
+		}
+		return nil
+	}
+	poolAssign[uProcType] = func(dst reflect.Value, v model.V) error {
+		if v.K != model.VObj {
+			return errors.New("UProc accepts objects only")
+		}
+		// the temporary cell starts from zero and replaces the target as a whole
+		tmp := reflect.New(reflect.TypeOf(uprocCell{})).Elem()
+		if err := assign(tmp, v, "$", 1); err != nil {
+			return err
+		}
+		dst.Field(0).SetInt(tmp.Field(0).Int())
+		dst.Field(1).SetString(tmp.Field(1).String())
+		return nil
+	}
+}
